@@ -1276,7 +1276,11 @@ htp_status_t htp_connp_RES_IDLE(htp_connp_t *connp) {
     if (connp->out_tx == NULL) {
         htp_log(connp, HTP_LOG_MARK, HTP_LOG_ERROR, 0, "Unable to match response to request");
         // finalize dangling request waiting for next request or body
-        if (connp->in_state == htp_connp_REQ_FINALIZE) {
+        // (but not one that has already been completed, e.g. when a
+        // REQUEST_COMPLETE callback stopped the inbound parser before
+        // the transaction could be detached from it)
+        if ((connp->in_state == htp_connp_REQ_FINALIZE) && (connp->in_tx != NULL) &&
+            (connp->in_tx->request_progress != HTP_REQUEST_COMPLETE)) {
             htp_tx_state_request_complete(connp->in_tx);
         }
         connp->out_tx = htp_connp_tx_create(connp);
